@@ -1,0 +1,13 @@
+//go:build verif
+
+// Contracts for the govc verifier (see /verif/DESIGN.md). Comment-only file.
+package helpers
+
+//@ # BipToPip(x) = x * 10^18, in a fresh number (the verifier evaluates package-level constants built with it by this
+//@ # formula; this contract keeps the formula tied to the body)
+//@ func BipToPip
+//@   serves C02 C12 C13 C17
+//@   requires bip != nil
+//@   ensures scaled: result != nil && fresh(result) && result.val == bip.val * 1000000000000000000
+//@   ensures argkept: bip.val == old(bip.val)
+//@   modifies nothing
